@@ -5,7 +5,7 @@
 # characters themselves.  Assertions on the rope, for every value of the symbolic characters (z3 over the guards):
 # non-empty, contains the keyword, contains the argument word between a pair of back quotes (an empty pair when the
 # argument is missing), and every quoted segment occurs in the input.
-import time
+import time, re
 import z3
 from .common import *
 
@@ -171,12 +171,103 @@ def run(ctx, rep, tier):
             cs = [sym_char() for _ in range(k)]
             asm = [word_char(c) for c in cs] + [z3.And(cs[0] != ord("-"), cs[0] != ord("("), cs[0] != ord("!"), cs[0] != ord(","), cs[0] != ord("n"))]
             one("%sunknown%d" % (pre, k), sp(pre, asm) + cs, asm, None, cs)
+    # (3b) a word that begins with '-' and is no keyword: '-' + k symbolic characters.  Strict part: no primary keyword is a proper
+    # prefix of the word (operator spellings are no primaries: `-ok`, `-abc`, `-andx`): the message quotes the whole word.
+    # Glued part: <primary keyword><tail>: the whole word, or -- recorded deviation `glued-tail` -- the tail after a primary
+    # keyword prefix is quoted; anything else is a violation.
+    from spec.vocab import VOCAB, OPERATOR_WORDS
+    dash = ord("-")
+
+    def prefix_guard(cs, kw):
+        return b_and(*[cs[i] == ord(kw[i + 1]) for i in range(len(kw) - 1)])
+
+    def run_dash(name, pre, cs, asm, tails, strict):
+        """tails: [(guard, tail items)] acceptable under the recorded deviation"""
+        w = [dash] + cs
+        spec = sp(pre, asm) + w
+        r = B.parse(spec, extra_assume=asm)
+        input_items = []
+        for x in spec:
+            input_items += [ord(c) for c in x] if isinstance(x, str) else [x]
+        bad, dev, not_err = False, False, False
+        for g, v in r.alts:
+            if isinstance(v, Panic) or not is_err(v):
+                not_err = b_or(not_err, g)
+                continue
+            for g1, e in flatten_value(v.fields[0]):
+                items = list(r.I.fmt_display(r.I, e, St()))
+                gg = b_and(g, g1)
+                if check_message(items, None, None, input_items):
+                    bad = b_or(bad, gg)
+                    continue
+                whole = bool(find_sub(items, [96] + w + [96]))
+                tail_ok = False if (strict or "glued-tail" not in known) else b_or(*[tg for tg, t in tails if find_sub(items, [96] + list(t) + [96])])
+                if not whole:
+                    bad = b_or(bad, b_and(gg, b_not(tail_ok)))
+                    dev = b_or(dev, b_and(gg, tail_ok))
+        res, m = B.solve(name + ":rejected", r.assume, not_err)
+        if res == z3.sat:
+            t = model_string(m, spec)
+            d = B.ctx.run_native([t], "debug")[0]
+            if d.get("parse") == "err":
+                rep.inconclusive.append("witness %r (accepted) does not reproduce" % t)
+            else:
+                rep.violation("message:not-rejected", "%r is not rejected (%s)" % (t, d.get("parse")), dict(input=t))
+        res, m = B.solve(name + ":message", r.assume, bad)
+        if res == z3.sat:
+            t = model_string(m, spec)
+            wt = model_string(m, w)
+            msg = B.ctx.run_native([t], "debug")[0].get("err", "")
+            quoted = re.findall(r"`([^`]*)`", msg)
+            allowed = [wt] + ([] if strict or "glued-tail" not in known else [wt[len(kw):] for kw in VOCAB if wt.startswith(kw) and len(wt) > len(kw)])
+            if msg and any(a in quoted for a in allowed) and all((not q_) or q_ in t for q_ in quoted):
+                rep.inconclusive.append("message witness %r does not reproduce natively (%r)" % (t, msg))
+            else:
+                rep.violation("message:word", "%r -> %r: the word %r is no keyword and is not quoted" % (t, msg, wt), dict(input=t, message=msg))
+        if dev is not False and not run_dash.seen:
+            res, m = B.solve(name + ":glued-tail-present", r.assume, dev)
+            if res == z3.sat:
+                t = model_string(m, spec)
+                wt = model_string(m, w)
+                msg = B.ctx.run_native([t], "debug")[0].get("err", "")
+                quoted = re.findall(r"`([^`]*)`", msg)
+                if wt not in quoted and any(wt.startswith(kw) and wt[len(kw):] in quoted for kw in VOCAB):
+                    run_dash.seen = True
+                    rep.violation("glued-tail", "%r -> %r" % (t, msg), dict(input=t))
+    run_dash.seen = False
+
+    words_no_comma = lambda cs: [word_char(c) for c in cs] + [c != ord(",") for c in cs]
+    vocab_words = [kw for kw in list(VOCAB) + OPERATOR_WORDS if kw.startswith("-")]
+    for pre in (PREFIXES[:2] if q else PREFIXES):
+        for k in range(1, (3 if q else 5) + 1):
+            cs = [sym_char() for _ in range(k)]
+            asm = words_no_comma(cs)
+            asm += [b_not(prefix_guard(cs, kw)) for kw in vocab_words if len(kw) == k + 1]          # not a vocabulary word
+            asm += [b_not(prefix_guard(cs, kw)) for kw in VOCAB if len(kw) < k + 1]                  # no primary keyword prefix
+            run_dash("%sdash-unknown%d" % (pre, k), pre, cs, asm, [], True)
+    for kw in sorted(VOCAB):
+        for pre in (PREFIXES[:1] if q else PREFIXES[:2]):
+            for k in range(1, (2 if q else 3) + 1):
+                ts = [sym_char() for _ in range(k)]
+                cs = [ord(c) for c in kw[1:]] + ts
+                asm = words_no_comma(ts)
+                full = [kw2 for kw2 in vocab_words if len(kw2) == len(kw) + k and kw2.startswith(kw)]
+                asm += [b_not(b_and(*[ts[i] == ord(kw2[len(kw) + i]) for i in range(k)])) for kw2 in full]
+                tails = [(True, ts)]
+                for kw2 in VOCAB:                                  # a longer primary keyword formed with tail characters: covered
+                    if kw2.startswith(kw) and len(kw) < len(kw2) < len(kw) + k:      # when kw2 itself is the base keyword
+                        j = len(kw2) - len(kw)
+                        asm.append(b_not(b_and(*[ts[i] == ord(kw2[len(kw) + i]) for i in range(j)])))
+                for kw2 in VOCAB:                                  # a shorter primary keyword that is a prefix of this one
+                    if kw.startswith(kw2) and len(kw2) < len(kw):
+                        tails.append((True, [ord(c) for c in kw[len(kw2):]] + ts))
+                run_dash("%s%s+glued%d" % (pre, kw, k), pre, cs, asm, tails, False)
     cov = B.coverage_common()
     cov.update(explanation="parse incl. error dispatch and Display executed from MIR; per family z3 decides over all values of the symbolic "
                "argument characters whether the message (a rope containing those very characters) is non-empty, names the keyword, quotes the "
                "word, and quotes only input text",
                bounds=dict(separators="every blank between words is a symbolic character out of {space, tab, newline, CR}", keywords=list(KW), missing_argument_keywords=MISSING, word_len=kmax, prefixes=PREFIXES if not q else PREFIXES[:2]),
-               samples=samples, outside="arguments that start validly (C05); quoted argument words; longer words",
+               samples=samples, dash_words="'-' + 1..%d symbolic characters without a primary keyword prefix: whole word quoted; every primary keyword + 1..%d glued characters: whole word or (recorded deviation glued-tail) the glued tail quoted" % ((3 if q else 5), (2 if q else 3)), outside="arguments that start validly (C05); quoted argument words; longer words; words containing a comma",
                evaluations=len(rep.queries), distinct_nontrivial=len(rep.queries))
     rep.coverage = cov
 
